@@ -25,11 +25,13 @@ func (w *World) newUnit(name, kind string, con *Contract) *Unit {
 	if con != nil {
 		u.Props = con.Props
 	}
-	u.M0 = MemState{m: map[string]*MemNode{}}
+	u.M0 = MemState{m: map[string]*MemNode{}, mp: map[string]*MapNode{}}
+	u.rangeOf = map[*ssa.Range]ssa.Value{}
 	inputBound := tb.BVU(32, freshBase)
 	for _, s := range []Sort{BoolSort, BVSort(8), BVSort(16), BVSort(32), BVSort(64), StrSort} {
 		u.M0.m[s.Key()] = u.mc.NewBase("m0", s, inputBound)
 	}
+	u.M0.m[mapLenKey] = u.mc.NewBase("m0len", BV64, inputBound)
 	u.mc.onBaseRead = func(base *MemNode, obj, off, val *Term) {
 		// nothing here: validity of loaded references is asserted per typed load (loadFacts);
 		// references stored in the initial memory belong to the input world
@@ -73,13 +75,17 @@ func (w *World) BuildFuncUnit(con *Contract) (u *Unit) {
 	}
 	u.Fn = fn
 	tb := u.tb
-	f := &Frame{u: u, fn: fn, vals: map[ssa.Value][]*Term{}}
+	f := &Frame{u: u, fn: fn, vals: map[ssa.Value][]*Term{}, inl: map[string]bool{}}
+	for _, n := range con.Inline {
+		f.inl[n] = true
+	}
 	var pvals [][]*Term
 	for _, p := range fn.Params {
 		v := u.input(p.Name(), p.Type())
 		f.set(p, v)
 		pvals = append(pvals, v)
 	}
+	u.initMaps(fn, w.stubs[con])
 	u.M0 = u.installGlobals(u.M0, fn, w.stubs[con])
 	// captured variables of a closure: cells in fresh-world objects holding symbolic values
 	mem := u.M0
@@ -120,6 +126,27 @@ func (w *World) BuildFuncUnit(con *Contract) (u *Unit) {
 	stA := f.evalStub(con, valsA, entryMem, &entryMem, tb.BVU(32, freshBase), nil)
 	for _, r := range stA.requires {
 		u.addFact(r)
+	}
+	// a precondition "param == constant" lets the body be encoded with the constant
+	// (constant divisors, table sizes, ... fold away); the equality stays as a fact
+	for _, r := range stA.requires {
+		if r.Op == "=" && (r.Args[0].Op == "sym" && r.Args[1].IsConst() || r.Args[1].Op == "sym" && r.Args[0].IsConst()) {
+			sym, c := r.Args[0], r.Args[1]
+			if sym.Op != "sym" {
+				sym, c = c, sym
+			}
+			for _, p := range fn.Params {
+				pv := f.vals[p]
+				for i := range pv {
+					if pv[i] == sym {
+						nv := append([]*Term{}, pv...)
+						nv[i] = c
+						f.set(p, nv)
+						pv = nv
+					}
+				}
+			}
+		}
 	}
 	u.addCover("requires", tb.True(), f.pos(fn.Pos()))
 	if !con.Flags["noframe"] {
@@ -173,6 +200,7 @@ func (w *World) BuildLemmaUnit(con *Contract) (u *Unit) {
 		f.inl[n] = true
 	}
 	u.lemmaMode = true
+	u.initMaps(fn)
 	u.M0 = u.installGlobals(u.M0, fn)
 	for _, p := range fn.Params {
 		f.set(p, u.input(p.Name(), p.Type()))
